@@ -127,11 +127,12 @@ def deleteMarkers (a : CreateArgs R) : M R Unit := do
     forEach a.plan (fun p => do let _ ← attempt (step "storeDeleteProcessing" p.1 (rmMarker p.1)); pure ())
   else pure ()
 
-/-- the body run on the worker pool; deferred calls in Go's reverse order of registration -/
+/-- the body run on the worker pool; deferred calls in Go's reverse order of registration (the
+markers are deleted BEFORE their WAL events are committed, /repo 3c42b65) -/
 def create (a : CreateArgs R) : M R Unit := do
   let _ ← attempt (createTxn a)
+  deleteMarkers a
   commitProcessing a
   commitAllocated
-  deleteMarkers a
 
 end Eru.Cluster
